@@ -57,7 +57,10 @@ impl<'a, T: Send + Sync> AtomicIter<&'a T> for ConIterOfSlice<'a, T> {
 
     #[inline(always)]
     fn progress_and_get_begin_idx(&self, number_to_fetch: usize) -> Option<usize> {
-        let begin_idx = self.counter().fetch_and_add(number_to_fetch);
+        // no more than `initial_len` positions are ever needed: clamping keeps the counter from wrapping for huge requests
+        let begin_idx = self
+            .counter()
+            .fetch_and_add(number_to_fetch.min(self.initial_len()));
         match begin_idx.cmp(&self.initial_len()) {
             Ordering::Less => Some(begin_idx),
             _ => None,
@@ -74,7 +77,10 @@ impl<'a, T: Send + Sync> AtomicIter<&'a T> for ConIterOfSlice<'a, T> {
         let begin_idx = self
             .progress_and_get_begin_idx(n)
             .unwrap_or(self.initial_len());
-        let end_idx = (begin_idx + n).min(self.initial_len()).max(begin_idx);
+        let end_idx = begin_idx
+            .saturating_add(n)
+            .min(self.initial_len())
+            .max(begin_idx);
 
         match begin_idx.cmp(&end_idx) {
             Ordering::Equal => None,
